@@ -41,6 +41,11 @@ class FDictNode(FNode, dict):
         self['alpha'] = 0
 
 
+class FReprNode(FNode):
+    """the documented idiom __repr__ = pretty_repr: the fallback repr of a failing printer re-enters the package"""
+    from prettyprinter import pretty_repr as __repr__
+
+
 class ReprLeaf:
     def __init__(self, text):
         self.text = text
@@ -80,6 +85,11 @@ def pretty_fnode2(value, ctx):
 
 @register_pretty(FDictNode)
 def pretty_fdict(value, ctx, trailing_comment=None):
+    return _doc(value, ctx, trailing_comment)
+
+
+@register_pretty(FReprNode)
+def pretty_freprnode(value, ctx, trailing_comment=None):
     return _doc(value, ctx, trailing_comment)
 
 
